@@ -52,7 +52,7 @@ func main() {
 		}
 		alpha := []rc{{"S1", s1, true}, {"S2", s2, true}, {"X", keys.X(0).Rcpt, false}, {"E", keys.Ed(0).Rcpt, false}, {"U", &lab.Unknown{Type: "u", N: 1}, false},
 			{"L", &labelled{keys.X(1).Rcpt, []string{"postquantum"}}, false}, {"L0", &labelled{keys.X(1).Rcpt, []string{}}, false}}
-		maxLen := c.Pick(4, 5)
+		maxLen := c.Pick(4, 6)
 		c.Bound("every recipient list of length 1..%d over {S1, S2, X25519, ssh-ed25519, unknown, labelled, empty-labelled} (S1 may repeat as the same object) containing a passphrase recipient", maxLen)
 		var rec func(cur []int)
 		cnt := 0
@@ -133,7 +133,7 @@ func main() {
 		xst, _ := refage.WrapX25519(fk, keys.X(0).XPublic, lab.Plain(32, 80))
 		others := []refage.Stanza{xst, {Type: "grease-1", Args: []string{"a"}, Body: []byte{1, 2, 3}}, second, {Type: "scrypt"}, {Type: "Scrypt", Args: good.Args, Body: good.Body}}
 		oname := []string{"X25519", "grease", "scrypt2", "scrypt-bare", "Scrypt-case"}
-		maxSt := c.Pick(5, 6)
+		maxSt := c.Pick(5, 7)
 		plain := []byte("secret")
 		c.Bound("headers of 1..%d stanzas with one correct scrypt stanza at every position among {X25519, grease, second scrypt, bare scrypt, wrong-case type} stanzas (correct MAC, valid payload), decrypted with the right passphrase", maxSt)
 		var rec2 func(cur []int)
